@@ -1,4 +1,5 @@
 """Correspondence families: each returns a list of protocol operations (see Driver.lean)."""
+import re
 import json
 from gen import Vocab, shuffled, FREE_POOL, JUNK, SearchGen, universe
 
@@ -156,6 +157,22 @@ def fam_query(v, n):
             ops.append({"op": "sid", "s": s_empty + "?" + q})
             ops.append({"op": "sid_call", "from": {"s": rng.choice([s_empty, label + ":" + s_empty])}, "m": "get_with_q", "q": q})
         ops.append({"op": "update", "d": [[kk, vv] for (kk, _), vv in zip(ks, vals)], "q": "%s=~ophelia" % k})
+    # the same query TEXT read by a search first (the unfolding rewrites its own copy of the query: aliases,
+    # ',' lists), then applied to a Sid, then parsed on its own
+    leaf_labels = [l for l in v.labels if v.tdict[l] and v.tdict[l][-1][0] == v.leaf_keys.get(l.split(v.sep)[0])]
+    for a in sorted(v.aliases)[:4]:
+        for label in rng.sample(leaf_labels, min(2, len(leaf_labels))):
+            ks = v.tdict[label]
+            vals = [v.value((k, r), concrete_only=True) for k, r in ks[:-1]]
+            base = "/".join(vals)
+            for q in ("%s=%s" % (ks[-1][0], a), "%s=%s,%s" % (ks[-1][0], a, v.aliases[a][0]), "%s=~%s" % (ks[-1][0], a)):
+                ops.append({"op": "unfold_search", "s": "/".join(vals[:-1] + ["*", "*"]) + "?" + q})
+                ops.append({"op": "extensions", "s": base + "/*?" + q})
+                ops.append({"op": "sid", "s": base + "?" + q})
+                ops.append({"op": "sid_call", "from": {"s": base}, "m": "get_with_q", "q": q})
+                ops.append({"op": "to_dict", "q": q})
+                ops.append({"op": "or_on_query", "q": q})
+                ops.append({"op": "to_dict", "q": q})
     ops.append({"op": "sid_call", "from": {"s": "hamlet/a/char"}, "m": "get_with_kw", "kw": [["foo", None]]})
     ops.append({"op": "sid", "s": "hamlet/a/char?"})
     ops.append({"op": "sid", "s": "?project=hamlet"})
@@ -252,7 +269,20 @@ def mutate_path(v, p):
     """one mutation of the C06 grammar applied to a valid path"""
     rng = v.rng
     comps = p.split("/")
-    kind = rng.randrange(15)
+    kind = rng.randrange(17)
+    if kind >= 15 and v.path_words:         # a word of a value mapping (path side or sid side, synonyms) in place of a value
+        w = rng.choice(v.path_words)
+        if rng.random() < 0.5 and len(comps) > 3:
+            known = [i for i, cpt in enumerate(comps) if cpt in v.path_words]
+            i = rng.choice(known) if known and rng.random() < 0.8 else rng.randrange(2, len(comps))
+            comps[i] = w
+        else:
+            toks = re.split(r"([_.])", comps[-1])
+            known = [i for i, tk in enumerate(toks) if tk in v.path_words]
+            i = rng.choice(known) if known and rng.random() < 0.8 else rng.randrange(len(toks))
+            toks[i] = w
+            comps[-1] = "".join(toks)
+        return "/".join(comps)
     if kind == 14 and rng.random() < 0.4:   # the same name in another unicode normal form / with a combining mark
         import unicodedata
         i = rng.randrange(max(1, len(comps) - 4), len(comps))
@@ -468,6 +498,15 @@ def fam_listfind(v, n):
             for _ in range(2):
                 ss = [("*" if rng.random() < 0.45 else x) for x in segs]
                 ops.append({"op": "sid_call", "from": {"s": "/".join(segs)}, "m": "match", "search": "/".join(ss)})
+            # PARTIAL stars inside one segment (constrained and free keys alike): the glob matches the string, whether
+            # the search has a typed form at all is the configuration's business; the one-element list says the same
+            for _ in range(3):
+                i = rng.randrange(len(segs))
+                sg_ = segs[i]
+                part = rng.choice([sg_[:max(1, len(sg_) // 2)] + "*", "*" + sg_[-1:], sg_[:1] + "*" + sg_[-1:], sg_ + "*", "*" + sg_])
+                ss = segs[:i] + [part] + [("*" if rng.random() < 0.3 else x) for x in segs[i + 1:]]
+                ops.append({"op": "sid_call", "from": {"s": "/".join(segs)}, "m": "match", "search": "/".join(ss)})
+                ops.append({"op": "find_list", "l": ["/".join(segs)], "s": "/".join(ss), "m": "find"})
         # concrete lookups: present and absent; and every PREFIX of an entry whose last segment is an alias
         # name in a position that is not the leaf key (it still expands: "an alias in its last segment")
         for e in L:
